@@ -675,6 +675,10 @@ func ruleReductionOperatorTables(c *Ctx, prop string) {
 		case bad != "":
 			c.violate("R51", key, site, bad)
 		default:
+			if c.tableCovered == nil {
+				c.tableCovered = map[string]string{}
+			}
+			c.tableCovered["table:reduction:"+name] = key
 			c.discharge("R51", key, site, fmt.Sprintf("%d cells on int32 tensors of distinct values (rank 1..3 with unit extents, every subset of at most two axes in both spellings, keepdims on and off, no axes; axes out of range refused): ONNX shape, and every element is the reduction over exactly the requested axes", cells))
 		}
 	}
